@@ -26,6 +26,7 @@ Definition rg_mem := gc_mem rg_hash.
 Definition rg_rem_fin := gc_rem_fin.
 Definition rg_null_first := gc_null_first.
 Definition rg_led := led_list.
+Definition rg_led_step := led_step.   (* led_list (e :: l) = led_step e (led_list l) by definition *)
 Definition rg_ideal := ideal_size gc_primes gc_load_num gc_load_den.
 Definition n_add := N.add.
 Definition n_mul := N.mul.
@@ -36,6 +37,6 @@ Definition n_div := N.div.
 Definition z_add := Z.add.   (* ocaml/conv.ml.inc mentions the type z *)
 
 Extraction Language OCaml.
-Extraction "../ocaml/gen/Registry.ml" rg_init rg_step rg_mem rg_rem_fin rg_null_first rg_led rg_ideal
+Extraction "../ocaml/gen/Registry.ml" rg_init rg_step rg_mem rg_rem_fin rg_null_first rg_led rg_led_step rg_ideal
   rg_hash slots nitems mitems minptr maxptr running pending evs
   n_add n_mul n_ltb n_eqb n_sub n_div z_add uintptr_max.
